@@ -104,4 +104,35 @@ theorem tie_distance_pairwise (o : Src.Ops β) (x1 y1 z1 x2 y2 z2 : Nat → β) 
 
 end dist
 
+section expand
+variable {β : Type} [Add β] [Sub β] [Mul β] [Div β] [Neg β]
+
+theorem foldl_append_singleton' {γ : Type} (f : Nat → γ) (n : Nat) (init : List γ) :
+    (List.range n).foldl (fun acc k => acc ++ [f k]) init = init ++ (List.range n).map f := by
+  induction n with
+  | zero => simp
+  | succ m ih => rw [List.range_succ, List.foldl_append, ih]; simp
+
+/-- **tie**: one ray `(i, j)` of the translated `_expand_rays`: the new column of interior indices is the column of the ray
+from `i` to the winning point `idx = indices_new_interface[i, j]` of the last interior interface, followed by `idx` itself —
+the `ks ++ [k]` of the model's `scanMinR` -/
+theorem tie_expand_rays (o : Src.Ops β) (interior : Nat → Nat → Nat → Int) (new : Nat → Nat → Int) (d i j : Nat) :
+    Src.expand_rays_cell o interior new d i j =
+      (List.range d).map (fun k => interior k i (new i j).toNat) ++ [new i j] := by
+  unfold Src.expand_rays_cell
+  simp only [foldl_append_singleton', List.nil_append]
+
+/-- the expanded column has one more entry than the columns it extends, ends with the new point, and its head is a column
+that was already there -/
+theorem tie_expand_rays_shape (o : Src.Ops β) (interior : Nat → Nat → Nat → Int) (new : Nat → Nat → Int) (d i j : Nat) :
+    (Src.expand_rays_cell o interior new d i j).length = d + 1 ∧
+    (Src.expand_rays_cell o interior new d i j).getLast? = some (new i j) ∧
+    (Src.expand_rays_cell o interior new d i j).take d = (List.range d).map (fun k => interior k i (new i j).toNat) := by
+  rw [tie_expand_rays]
+  refine ⟨by simp, by simp, ?_⟩
+  rw [List.take_append_of_le_length (by simp)]
+  exact List.take_of_length_le (by simp)
+
+end expand
+
 end Arim.Tie.C01
